@@ -40,13 +40,17 @@ def ch_impl_np(data, labels, K, means=None):
     return (B / Wd) * ((T - K) / (K - 1))
 
 
-def impl_value(data, labels, K, biased=False):
+def impl_value(data, labels, K, biased=False, earlier=None):
+    """the index of a state carrying `labels`; with `earlier`, the state carried that labelling first (a state in mid-run)"""
     from fast_ticc import cluster_metrics as cmx
     from fast_ticc.containers import model_state, arguments
     from fast_ticc import cluster_maintenance as cm
     ua = arguments.UserArguments(sparsity_weight=0.1, iteration_limit=1, label_switching_cost=1.0, min_cluster_size=1,
                                  min_meaningful_covariance=0, num_clusters=K, num_processors=1, biased_covariance=biased, window_size=1)
     ms = model_state.ModelState.empty_model(ua, data)
+    if earlier is not None:
+        ms.point_labels = list(earlier)
+        ms = cm.update_all_cluster_statistics(ms, data)
     ms.point_labels = list(labels)
     ms = cm.update_all_cluster_statistics(ms, data)       # the state as the main loop would have it: member means and covariances
     return float(cmx.calinski_harabasz_index(data, ms))
@@ -54,7 +58,7 @@ def impl_value(data, labels, K, biased=False):
 
 def run(ctx):
     rng = np.random.default_rng(ctx.seed)
-    ctx.proof_layer(allowed_axioms=core.R_AX, coq_deps=["Corr/RunAccounting", "Proofs/GenEquivCH"], gen=["cluster_metrics"])
+    ctx.proof_layer(allowed_axioms=core.R_AX, coq_deps=["Corr/RunAccounting", "Proofs/GenEquivCH"], gen=["cluster_metrics", "model_state"])
     core.note_drift(ctx, ANCHORS)
     cov = core.LineCoverage()
     lits, meta = [], []
@@ -83,6 +87,28 @@ def run(ctx):
                             ctx.violation("monitor", "the index of the same values stored as %s is %r, stored as float64 it is %r" % (np.dtype(dt).name, got_dt, got),
                                           {"case": dict(case, dtype=np.dtype(dt).name)})
                             break
+                # the same labelling reached from an earlier one (as in the middle of a run): interior points exchanged between clusters,
+                # every cluster keeping its size, its first and its last point - the index must not remember the earlier labelling
+                earlier = list(labels)
+                inner = [p for p in range(1, T - 1)]
+                for a_ in inner:
+                    for b_ in inner:
+                        if a_ < b_ and earlier[a_] != earlier[b_]:
+                            cand = list(earlier)
+                            cand[a_], cand[b_] = cand[b_], cand[a_]
+                            keep = all(min(q for q in range(T) if cand[q] == k) == min(q for q in range(T) if labels[q] == k)
+                                       and max(q for q in range(T) if cand[q] == k) == max(q for q in range(T) if labels[q] == k) for k in range(K))
+                            if keep:
+                                earlier = cand
+                                break
+                    if earlier != list(labels):
+                        break
+                if earlier != list(labels):
+                    got_h = impl_value(data, labels, K, biased=bool(i % 2), earlier=earlier)
+                    ctx.count("unit-history")
+                    if abs(got_h - got) > 1e-9 * max(1.0, abs(got)):
+                        ctx.violation("monitor", "the index of a state that carried another labelling before (two interior points exchanged, sizes and end points of "
+                                      "every cluster the same) is %r, of a fresh state with the same labelling %r" % (got_h, got), {"case": dict(case, earlier_labels=earlier)})
                 lits.append("(%s, %s, %s)" % (c_nat(K), c_list([c_list(r, c_Z) for r in data.astype(int).tolist()]), c_list(labels, c_nat)))
                 meta.append((case, got))
         # (a') thousands of windows (more than the usual block sizes of vectorised code), unequal cluster sizes:
@@ -116,6 +142,8 @@ def run(ctx):
         # run still converges with every cluster populated (seeds chosen so that this happens on the validated tree)
         cen += [{"N": 3, "W": 1, "K": 5, "beta": 10.0, "lam": 0.11, "limit": 30, "m": 10, "biased": False, "eps": 0, "joint": False,
                  "lengths": [300], "data_seed": 1700 + j, "rng_seed": 1700 + j, "regimes": 5} for j in ((11, 59) if not ctx.thorough else (11, 59, 23, 131))]
+        cen += [{"N": 2, "W": 1, "K": 2, "beta": 0.0, "lam": 0.11, "limit": 30, "m": 2, "biased": False, "eps": 0, "joint": False,
+                 "lengths": [90], "data_seed": 1750 + j, "rng_seed": 1750 + j, "regimes": 2, "scale": 2.5} for j in range(ctx.budget(8, 24))]
         runs = runs + e2e.cached_runs(ctx, cen, "c17")
         for r in runs:
             ctx.count("run")
@@ -128,6 +156,13 @@ def run(ctx):
             if not stop or min(sizes) == 0:
                 continue
             stacked = np.vstack([dp.stack_training_data(np.asarray(s, dtype=np.float64), cfg["W"]) for s in r["series"]])
+            # the index is computed from the model's member lists and sizes: they must be those of the returned labelling
+            stale_k = [k for k, c in enumerate(fin["clusters"]) if [int(x) for x in c["members"]] != [i for i, l in enumerate(fin["labels"]) if l == k]]
+            if stale_k:
+                ctx.violation("monitor", "converged run: the member list of cluster %s in the final model is not the set of points labelled with it, so the reported index %r "
+                              "describes another clustering than the one returned (definition on the returned labels: %r)" % (
+                                  stale_k, r["result"]["chi"], ch_def_np(stacked, fin["labels"], cfg["K"])), {"case": {"cfg": cfg}})
+                continue
             means = [c["stacked_data_mean"] for c in fin["clusters"]]
             member_means = [stacked[c["members"]].mean(axis=0) for c in fin["clusters"]]
             if not all(np.allclose(a, b, rtol=1e-9, atol=1e-9) for a, b in zip(means, member_means)):
